@@ -412,6 +412,26 @@ class Run:
         elif not ok:
             # some other property's file is broken; ours is fine
             self.cov["build_note"] = "make reported errors outside this property's closure"
+        if self.tier == "thorough" and not problems:
+            rc, out = sh(["coqchk", "-silent", "-o"] + [x for d in COQ_DIRS for x in ("-Q", d, "ISLA")]
+                         + [f"ISLA.{self.id}"], timeout=1800, cwd=COQ)
+            summary = out[out.find("CONTEXT SUMMARY"):][:3000] if "CONTEXT SUMMARY" in out else out[-1500:]
+            self.cov["coqchk"] = summary
+            if rc != 0 or "CONTEXT SUMMARY" not in out:
+                problems.append("coqchk failed: " + out[-800:])
+            else:
+                m = re.search(r"\* Axioms:(.*?)\n\s*\n\* ", summary, re.S)
+                ax = (m.group(1).strip() if m else "?")
+                self.cov["coqchk_axioms"] = ax
+                for key in ("type-in-type", "unsafe (co)fixpoints", "positivity is assumed"):
+                    mm = re.search(re.escape(key) + r":(.*?)(\n\s*\n|$)", summary, re.S)
+                    if mm and "<none>" not in mm.group(1):
+                        problems.append(f"coqchk: {key}: {mm.group(1).strip()[:200]}")
+                if ax != "<none>":
+                    bad = [a for a in re.findall(r"[\w.']+", ax) if a.split(".")[-1] not in ALLOWED_AXIOMS]
+                    if bad:
+                        problems.append(f"coqchk lists axioms {bad}")
+            self.cov["discharged"] = self.cov["discharged"] if not problems else 0
         self.proof_problems = problems
         return not problems
 
